@@ -141,6 +141,10 @@ theorem step_aliveLe (m : Model) (w : W) (e : Op) : AliveLe (step m w e).1 w := 
     · exact AliveLe.refl w
   | emit v => exact AliveLe.refl w
   | run => exact fun i hi => hi
+  | unsubReapp j s =>
+    cases m with
+    | fixed => exact (unsub_aliveLe s _).trans (unsub_aliveLe (.multi j) w)
+    | code => exact unsub_aliveLe (.multi j) w
 
 theorem run_aliveLe (m : Model) : ∀ (es : List Op) (w : W), AliveLe (run m w es).1 w
   | [], w => AliveLe.refl w
@@ -260,6 +264,10 @@ theorem step_noneLe (m : Model) (w : W) (e : Op) : NoneLe (step m w e).1 w := by
       rw [h]; rfl
     · show Option.map markRan w.c1 = none
       rw [h]; rfl
+  | unsubReapp j s =>
+    cases m with
+    | fixed => exact (unsub_noneLe s _).trans (unsub_noneLe (.multi j) w)
+    | code => exact unsub_noneLe (.multi j) w
 
 theorem run_noneLe (m : Model) : ∀ (es : List Op) (w : W), NoneLe (run m w es).1 w
   | [], w => NoneLe.refl w
